@@ -160,6 +160,33 @@ static int g_sortdir;
 static char **g_dev;		/* VSHIM_DEVMAP prefixes */
 static size_t g_ndev;
 
+/*
+ * VSHIM_FSIZE: the kernel's own file size limit (RLIMIT_FSIZE, SIGXFSZ
+ * ignored) is in force while the traced program runs, so that every write(2)
+ * to a regular file - also the ones stdio issues internally, which cannot be
+ * interposed - transfers a short count when it crosses the limit and fails
+ * with EFBIG beyond it.  The shim lifts the limit around its own log writes
+ * and pause commands and removes it in a forked child.
+ */
+static int g_have_fsize;
+static rlim_t g_fsize;
+static struct rlimit g_fsize_orig;
+
+static void
+fsize_set(int limited)
+{
+	struct rlimit rl;
+	int e = errno;
+
+	if (!g_have_fsize)
+		return;
+	rl = g_fsize_orig;
+	if (limited)
+		rl.rlim_cur = g_fsize;
+	setrlimit(RLIMIT_FSIZE, &rl);
+	errno = e;
+}
+
 #define MAXCHILD 64
 static pid_t g_child[MAXCHILD];
 static int g_nchild;
@@ -427,8 +454,11 @@ static void
 lb_flush(struct lb *l)
 {
 	l->b[l->n++] = '\n';
-	if (g_logfd >= 0)
+	if (g_logfd >= 0) {
+		fsize_set(0);
 		raw_write(g_logfd, l->b, l->n);
+		fsize_set(1);
+	}
 }
 
 static void
@@ -805,6 +835,22 @@ vshim_init(void)
 		g_sortdir = 0;
 	if ((p = env_get("VSHIM_DEVMAP")) != NULL)
 		parse_devmap(p);
+	if ((p = env_get("VSHIM_FSIZE")) != NULL && *p != '\0') {
+		long v;
+
+		if (parse_long(p, strlen(p), &v) || v < 0)
+			config_error("bad VSHIM_FSIZE", p);
+		if (getrlimit(RLIMIT_FSIZE, &g_fsize_orig) == -1)
+			config_error("getrlimit RLIMIT_FSIZE", NULL);
+		g_fsize = (rlim_t)v;
+		if (g_fsize_orig.rlim_max != RLIM_INFINITY &&
+		    g_fsize > g_fsize_orig.rlim_max)
+			g_fsize = g_fsize_orig.rlim_max;
+		/* Beyond the limit write(2) fails with EFBIG instead of killing. */
+		signal(SIGXFSZ, SIG_IGN);
+		g_have_fsize = 1;
+		fsize_set(1);
+	}
 
 	g_on = 1;
 	g_state = 2;
@@ -882,7 +928,9 @@ do_pause(const struct call *c)
 	/* The command must not eat the stdin of the traced program. */
 	posix_spawn_file_actions_init(&fa);
 	posix_spawn_file_actions_addopen(&fa, 0, "/dev/null", O_RDONLY, 0);
+	fsize_set(0);		/* the command is not subject to VSHIM_FSIZE */
 	err = posix_spawn(&pid, "/bin/sh", &fa, NULL, argv, envp);
+	fsize_set(1);
 	posix_spawn_file_actions_destroy(&fa);
 	free(envp);
 	if (err != 0) {
@@ -2451,6 +2499,12 @@ child_reset(void)
 	g_have_time = g_have_pid = g_have_host = g_have_random = 0;
 	g_tmpnames = 0;
 	g_sortdir = 0;
+	if (g_have_fsize) {
+		/* The command runs without the file size limit. */
+		fsize_set(0);
+		signal(SIGXFSZ, SIG_DFL);
+		g_have_fsize = 0;
+	}
 
 	/*
 	 * Drop LD_PRELOAD and VSHIM_* from the environment. The names are
